@@ -178,7 +178,7 @@ impl<'a> Model<'a> {
 }
 
 pub fn run(cx: &mut Cx) {
-    let total = cx.total(30_000, 1_500_000);
+    let total = cx.total(200_000, 3_000_000);
     let dump = cx.dump;
     for case in cx.my_cases(total) {
         let mut r = cx.rng(case);
@@ -187,12 +187,16 @@ pub fn run(cx: &mut Cx) {
         let len = 1 + r.below(if long { 8 } else { 4 });
         let mut chain: Vec<Vec<N>> = vec![];
         let mut counter = 0;
-        let mut known: BTreeSet<usize> = BTreeSet::new();
+        // a tree: every template but the root extends an earlier one (mostly the previous one: chains; sometimes any
+        // earlier one: several leaves per ancestor)
+        let parents: Vec<usize> = (0..len).map(|i| if i == 0 { 0 } else if r.chance(2, 3) { i - 1 } else { r.below(i) }).collect();
+        let mut known_of: Vec<BTreeSet<usize>> = Vec::new();
         let keep_orphan = r.chance(1, 12);
         let mut orphans = 0;
         for lvl in 0..len {
             let mut used = BTreeSet::new();
             let mut nodes = gen_nodes(&mut r, 3, lvl, &mut used, None, &mut counter);
+            let mut known: BTreeSet<usize> = if lvl > 0 { known_of[parents[lvl]].clone() } else { BTreeSet::new() };
             if lvl > 0 {
                 let mut dropped = 0;
                 if keep_orphan {
@@ -208,6 +212,7 @@ pub fn run(cx: &mut Cx) {
             for k in m.keys() {
                 known.insert(*k);
             }
+            known_of.push(known);
             chain.push(nodes);
         }
         let mut srcs = vec![];
@@ -215,7 +220,7 @@ pub fn run(cx: &mut Cx) {
         for (i, ns) in chain.iter().enumerate() {
             let mut s = String::new();
             if i > 0 {
-                s.push_str(&format!("{{% extends \"t{}\" %}}", i - 1));
+                s.push_str(&format!("{{% extends \"t{}\" %}}", parents[i]));
             }
             pr(ns, &mut s, &mut capn);
             srcs.push((format!("t{i}"), s));
@@ -287,7 +292,14 @@ pub fn run(cx: &mut Cx) {
         let nest = chain.iter().map(|c| max_nesting(c, 0)).max().unwrap_or(0);
         let in_capture = chain.iter().any(|c| has_block_in_capture(c, false));
         for leaf in 0..len {
-            let mut model = Model { defs: defs[..=leaf].to_vec(), depth: 0, block_text: BTreeMap::new() };
+            // the ancestors of this leaf, root first
+            let mut path = vec![leaf];
+            while *path.last().unwrap() != 0 {
+                let p = parents[*path.last().unwrap()];
+                path.push(p);
+            }
+            path.reverse();
+            let mut model = Model { defs: path.iter().map(|i| defs[*i].clone()).collect(), depth: 0, block_text: BTreeMap::new() };
             let mut exp = String::new();
             let mr = model.render(&chain[0], None, &mut exp);
             let name = format!("t{leaf}");
@@ -299,8 +311,9 @@ pub fn run(cx: &mut Cx) {
                     continue;
                 }
             };
-            let nsuper = srcs[..=leaf].iter().map(|s| s.1.matches("super()").count()).sum::<usize>();
-            cx.cell(format!("len{}|leaf{leaf}|nesting{nest}|supers{}|{}|{}", len, nsuper.min(4), if in_capture { "blocks-in-captures" } else { "plain" }, match &mr { Ok(()) => "ok", Err(e) => e.as_str() }));
+            let nsuper = path.iter().map(|i| srcs[*i].1.matches("super()").count()).sum::<usize>();
+            let branching = (0..len).any(|i| i > 0 && parents[i] != i - 1);
+            cx.cell(format!("len{}{}|leaf{leaf}|nesting{nest}|supers{}|{}|{}", path.len(), if branching { "-tree" } else { "" }, nsuper.min(4), if in_capture { "blocks-in-captures" } else { "plain" }, match &mr { Ok(()) => "ok", Err(e) => e.as_str() }));
             cx.count("leaf_renders_compared", 1);
             match (&mr, &got) {
                 (Ok(()), Ok(g)) if *g == exp => {}
